@@ -15,11 +15,14 @@ def check(report, tier, only=None):
         kani.KaniJob('cm', 'c05_same_direction_replaces',
                      'two connections of the same direction: newer replaces older for all ids',
                      [FN], {'unwind': 34, 'inputs': 'a,b: [u8;32], direction: bool'}, claim='C05-tie-break-decision'),
-        kani.KaniJob('cm', 'c05_peer_id_order_is_lexicographic',
+        kani.KaniJob('root', 'c05_peer_id_order_is_lexicographic',
                      'derived Ord/Eq on PeerId = big-endian unsigned order on the 32 bytes (validates the bvult model used by mirsym)',
                      ['<PeerId as PartialOrd>', '<PeerId as PartialEq>'], {'unwind': 34, 'inputs': 'a,b: [u8;32]'}),
     ]
-    kani.build_and_run('C05', ['cm'], jobs, report)
+    # two builds: the tie-break harnesses name a private function (their module may not compile after a refactoring, in which case the
+    # mirsym obligation with the same claim decides); the order harness only needs the public PeerId
+    kani.build_and_run('C05', ['cm'], [j for j in jobs if j.site == 'cm'], report)
+    kani.build_and_run('C05', ['root'], [j for j in jobs if j.site == 'root'], report)
 
 
 # ----------------------------------------------------------------------------- E2: composition through the real `add`
